@@ -812,28 +812,28 @@ func ruleKeywords(c *Ctx) []Obligation {
 	}
 	kwConst, idConst := c.tokenTypeConst("keywordToken"), c.tokenTypeConst("identifierToken")
 	n := 0
-	for _, tl := range c.tokenLits() {
-		f := tl.fn
-		if f.Signature.Recv() == nil || f.Signature.Params().Len() != 0 || !token.IsExported(f.Name()) {
+	for _, bt := range c.allBuiltTokens() {
+		f := bt.fn
+		if f.Signature.Params().Len() != 0 || !token.IsExported(f.Name()) {
 			continue
 		}
-		if types.TypeString(f.Signature.Recv().Type(), shortQual) != "*jen.Statement" {
+		content, ok := "", false
+		if bt.content != nil {
+			content, ok = bt.content.strVal()
+		}
+		if !ok || !bt.ok {
 			continue
 		}
-		content, ok := constString(tl.content)
-		if !ok || !tl.typOK {
-			continue
-		}
-		if tl.typ != kwConst && tl.typ != idConst {
-			continue // Null, Empty, Line: checked by P-ISNULL
+		if bt.typ != kwConst && bt.typ != idConst {
+			continue // Null, Empty, Line: checked by P-LITCTOR
 		}
 		n++
 		fn := fname(f)
-		o.req(strings.EqualFold(f.Name(), content), fn, "emits the word it is named after", tl.pos, "method %s emits %q", f.Name(), content)
-		if tl.typ == kwConst {
-			o.req(token.Lookup(content).IsKeyword(), fn, "keyword token holds a Go keyword", tl.pos, "%q is not a keyword", content)
+		o.req(strings.EqualFold(f.Name(), content), fn, "emits the word it is named after", f.Pos(), "method %s emits %q", f.Name(), content)
+		if bt.typ == kwConst {
+			o.req(token.Lookup(content).IsKeyword(), fn, "keyword token holds a Go keyword", f.Pos(), "%q is not a keyword", content)
 		} else {
-			o.req(universe[content], fn, "identifier token holds a predeclared identifier", tl.pos, "%q is not in the universe scope (nor err)", content)
+			o.req(universe[content], fn, "identifier token holds a predeclared identifier", f.Pos(), "%q is not in the universe scope (nor err)", content)
 		}
 	}
 	c.stats["keyword_identifier_methods"] = n
@@ -910,42 +910,48 @@ func ruleTokContent(c *Ctx) []Obligation {
 		}
 	}
 	n := 0
-	for _, tl := range c.tokenLits() {
-		fn := fname(tl.fn)
-		if !tl.typOK {
-			o.undecided(fn, "token literal with non-constant type", tl.pos, "typ is not a constant")
+	seenKey := map[string]bool{}
+	for _, bt := range c.allBuiltTokens() {
+		fn := fname(bt.fn)
+		if !bt.ok {
+			o.undecided(fn, "token with non-constant type", bt.fn.Pos(), "the token type is not a constant even after inlining the helpers")
 			continue
 		}
-		n++
-		ws := want[tl.typ]
-		if len(ws) == 0 {
-			o.add(Discharged, fn, "token literal typ="+tl.typ, tl.pos, false, "the renderer asserts no type for %s tokens", tl.typ)
-			continue
-		}
+		ws := want[bt.typ]
 		var wt string
 		for k := range ws {
 			wt = k
 		}
-		if tl.content == nil {
-			o.add(Violated, fn, "token literal typ="+tl.typ+" has no content", tl.pos, true, "renderer asserts content.(%s)", wt)
+		key := fn + "|" + bt.typ
+		if seenKey[key] {
 			continue
 		}
-		ct := tl.content.Type()
-		if mi, ok := tl.content.(*ssa.MakeInterface); ok {
-			ct = mi.X.Type()
+		seenKey[key] = true
+		n++
+		if len(ws) == 0 {
+			o.add(Discharged, fn, "token typ="+bt.typ, bt.fn.Pos(), false, "the renderer asserts no type for %s tokens", bt.typ)
+			continue
 		}
-		got := types.TypeString(ct, shortQual)
-		// rune == int32, byte == uint8
+		if bt.content == nil || bt.content.Nil {
+			o.add(Violated, fn, "token typ="+bt.typ+" has no content", bt.fn.Pos(), true, "renderer asserts content.(%s)", wt)
+			continue
+		}
+		got := "?"
+		if bt.content.Typ != nil {
+			got = types.TypeString(bt.content.Typ, shortQual)
+		}
 		norm := func(s string) string {
 			switch s {
-			case "rune":
+			case "rune", "untyped rune":
 				return "int32"
 			case "byte":
 				return "uint8"
+			case "untyped string":
+				return "string"
 			}
 			return s
 		}
-		o.req(norm(got) == norm(wt), fn, "token literal typ="+tl.typ+" content type", tl.pos, "content has static type %s, the renderer asserts %s for this token type — a mismatch panics at render time", got, wt)
+		o.req(norm(got) == norm(wt), fn, "token typ="+bt.typ+" content type", bt.fn.Pos(), "content %s has static type %s, the renderer asserts %s for this token type — a mismatch panics at render time", bt.content, got, wt)
 	}
 	c.stats["token_literals"] = n
 	return o.list
